@@ -20,7 +20,7 @@ def gen_pairs(rng, n, vkind):
 class C02(Prop):
     id = 'C02'
     extracted = True      # per-key comprehensions of the join family, the grouping loop, cartesian, subtractByKey (harness/extract_m.py TrComp, Extracted/EquivC02.lean)
-    quick_cases = 3000
+    quick_cases = 6000
     thorough_cases = 40000
     quick_budget_s = 60
     rule = ('every keyed/join/set op x pairs of key-value lists (length 0..6) over keys {None, 0, 1, "a", (0,"a"), 2} with '
